@@ -9,9 +9,12 @@
 //! machine, including the exported (block, pos).
 use crate::prelude::*;
 
-/// apply two pieces (a concrete or symbolic, n symbolic <= NMAX) and compare with ks
+/// apply two pieces (a concrete or symbolic, n symbolic <= NMAX) and compare with ks.
+/// `$mk` builds the object in its initial state; it is rebuilt inside every branch of the case
+/// split, because an object mutated in one branch would reach the next branch in a merged
+/// (symbolic-cursor) state.
 macro_rules! two_pieces_tail {
-    ($s:ident, $ks:ident, $a:expr, $amax:expr, $nmax:expr) => {{
+    ($mk:expr, $ks:ident, $a:expr, $amax:expr, $nmax:expr) => {{
         const M: usize = $amax + $nmax + 1;
         let a: usize = $a;
         let n: usize = kani::any();
@@ -19,10 +22,11 @@ macro_rules! two_pieces_tail {
         let msg: [u8; M] = kani::any();
         let mut buf = msg;
         split_on!(a, 0, $amax, a_ => {
-            let (p1, rest) = buf.split_at_mut(a_);
-            assert!($s.try_apply_keystream(p1).is_ok());
             split_on!(n, 0, $nmax, n_ => {
-                assert!($s.try_apply_keystream(&mut rest[..n_]).is_ok());
+                let mut s = $mk;
+                let (p1, rest) = buf.split_at_mut(a_);
+                s.try_apply_keystream(p1).unwrap();
+                s.try_apply_keystream(&mut rest[..n_]).unwrap();
             });
         });
         let mut i = 0;
@@ -48,9 +52,9 @@ macro_rules! three_pieces_tail {
         {
             let (p1, rest) = buf.split_at_mut($n1);
             let (p2, rest) = rest.split_at_mut($n2);
-            assert!($s.try_apply_keystream(p1).is_ok());
-            assert!($s.try_apply_keystream(p2).is_ok());
-            assert!($s.try_apply_keystream(&mut rest[..$n3]).is_ok());
+            $s.try_apply_keystream(p1).unwrap();
+            $s.try_apply_keystream(p2).unwrap();
+            $s.try_apply_keystream(&mut rest[..$n3]).unwrap();
         }
         let mut i = 0;
         while i < M - 1 {
@@ -73,10 +77,8 @@ macro_rules! ofb_two {
             let c = UfE::<$bs, $par>::with_key(kani::any());
             let mut ks = [0u8; NB * B];
             spec::ofb_ks(c.p(), &iv, &mut ks);
-            let mut s = StreamCipherCoreWrapper::from_core(ofb::OfbCore::inner_iv_init(c.clone(), blk::<$bs>(&iv)));
-            let a: usize = kani::any();
-            kani::assume(a <= $amax);
-            two_pieces_tail!(s, ks, a, $amax, $nmax);
+            let a: usize = $amax; // piece 1 concrete (enumerated by instantiation), piece 2 symbolic
+            two_pieces_tail!(StreamCipherCoreWrapper::from_core(ofb::OfbCore::inner_iv_init(c.clone(), blk::<$bs>(&iv))), ks, a, $amax, $nmax);
         }
     };
 }
@@ -106,15 +108,18 @@ macro_rules! ctr_two {
             const B: usize = $b;
             const NB: usize = ($a + $nmax + B) / B;
             let iv: [u8; B] = kani::any();
-            let pos: $ct = kani::any();
-            kani::assume(pos <= <$ct>::MAX - 2 * NB as $ct);
+            // concrete block position: a symbolic one makes the wrapper's `blocks > remaining` test a
+            // symbolic branch whose early return is merged into every later call (cost x20); the
+            // core is position-independent for every position by C04 and `remaining` is C11
+            let pos: $ct = <$ct>::MAX / 3;
             let c = UfE::<$bs, $par>::with_key(kani::any());
             let mut ks = [0u8; NB * B];
             spec::ctr_ks(c.p(), $spec, &iv, pos as u128, &mut ks);
-            let mut core = ctr::CtrCore::<_, ctr::flavors::$flavor>::inner_iv_init(c.clone(), blk::<$bs>(&iv));
-            core.set_block_pos(pos);
-            let mut s = StreamCipherCoreWrapper::from_core(core);
-            two_pieces_tail!(s, ks, $a, $a, $nmax);
+            two_pieces_tail!({
+                let mut core = ctr::CtrCore::<_, ctr::flavors::$flavor>::inner_iv_init(c.clone(), blk::<$bs>(&iv));
+                core.set_block_pos(pos);
+                StreamCipherCoreWrapper::from_core(core)
+            }, ks, $a, $a, $nmax);
         }
     };
 }
@@ -126,8 +131,10 @@ macro_rules! ctr_three {
             const B: usize = $b;
             const NB: usize = ($n1 + $n2 + $n3 + B) / B;
             let iv: [u8; B] = kani::any();
-            let pos: $ct = kani::any();
-            kani::assume(pos <= <$ct>::MAX - 2 * NB as $ct);
+            // concrete block position: a symbolic one makes the wrapper's `blocks > remaining` test a
+            // symbolic branch whose early return is merged into every later call (cost x20); the
+            // core is position-independent for every position by C04 and `remaining` is C11
+            let pos: $ct = <$ct>::MAX / 3;
             let c = UfE::<$bs, $par>::with_key(kani::any());
             let mut ks = [0u8; NB * B];
             spec::ctr_ks(c.p(), $spec, &iv, pos as u128, &mut ks);
@@ -146,13 +153,12 @@ macro_rules! belt_three {
             const B: usize = 16;
             const NB: usize = ($n1 + $n2 + $n3 + B) / B;
             let iv: [u8; B] = kani::any();
-            let pos: u128 = kani::any();
-            kani::assume(pos <= u128::MAX - 2 * NB as u128);
+            let pos: u128 = u128::MAX / 3; // concrete, see ctr_two
             let c = UfE::<U16, $par>::with_key(kani::any());
             let s0 = spec::belt_s0(c.p(), &iv);
             let mut ks = [0u8; NB * B];
             spec::belt_ks(c.p(), s0, pos, &mut ks);
-            let mut core = belt_ctr::BeltCtrCore::inner_iv_init(c.clone(), blk::<U16>(&iv));
+            let mut core = crate::common::belt_core(c.clone(), &iv);
             core.set_block_pos(pos);
             let mut s = StreamCipherCoreWrapper::from_core(core);
             three_pieces_tail!(s, ks, $n1, $n2, $n3);
@@ -304,8 +310,63 @@ macro_rules! prefix_case {
     };
 }
 
+/// Buffered CFB, fully concrete geometry (state position P0, call length N): the same claim as
+/// buf_step for one (pos, n) pair; cheap, so long calls (many whole blocks after a mid-block start)
+/// can be covered.
+macro_rules! buf_step_fixed {
+    ($name:ident, $unw:expr, $ty:ident, $call:ident, $enc:expr, $bs:ty, $b:expr, $p0:expr, $n:expr) => {
+        #[kani::proof]
+        #[kani::unwind($unw)]
+        pub fn $name() {
+            const B: usize = $b;
+            const N: usize = $n;
+            let c = UfE::<$bs, U2>::with_key(kani::any());
+            let st0: [u8; B] = kani::any();
+            let data: [u8; N] = kani::any();
+            let mut want = data;
+            let mut st = st0;
+            let mut pos: usize = $p0;
+            let mut i = 0;
+            while i < N {
+                let o = data[i] ^ st[pos];
+                want[i] = o;
+                st[pos] = if $enc { o } else { data[i] };
+                pos += 1;
+                if pos == B {
+                    let e = c.e(&st);
+                    let mut j = 0;
+                    while j < B {
+                        st[j] = e[j];
+                        j += 1;
+                    }
+                    pos = 0;
+                }
+                i += 1;
+            }
+            let mut m = cfb_mode::$ty::from_state(c.clone(), blk::<$bs>(&st0), $p0);
+            let mut buf = data;
+            m.$call(&mut buf);
+            let mut i = 0;
+            while i < N {
+                assert!(buf[i] == want[i], "buffered CFB differs from the per-byte machine");
+                i += 1;
+            }
+            let (st1, pos1) = m.get_state();
+            assert!(pos1 == pos, "exported position differs");
+            let mut j = 0;
+            while j < B {
+                assert!(st1[j] == st[j], "exported block differs");
+                j += 1;
+            }
+            kani::cover!(true);
+        }
+    };
+}
+
 // ---- quick ---------------------------------------------------------------------------------
 ofb_two!(ofb_b2_w1_a3_n5, 48, U2, 2, U1, 3, 5);
+ofb_two!(ofb_b2_w2_a2_n5, 48, U2, 2, U2, 2, 5);
+ofb_two!(ofb_b4_w1_a1_n9, 48, U4, 4, U1, 1, 9);
 ctr_two!(ctr32be_b4_w1_a3_n9, 48, Ctr32BE, spec::CTR32BE, u32, U4, 4, U1, 3, 9);
 ctr_three!(ctr32be_b4_w2_p0_5_4, 48, Ctr32BE, spec::CTR32BE, u32, U4, 4, U2, 0, 5, 4);
 ctr_three!(ctr32be_b4_w2_p4_0_9, 48, Ctr32BE, spec::CTR32BE, u32, U4, 4, U2, 4, 0, 9);
@@ -317,6 +378,9 @@ ctr_three!(ctr128le_b16_w1_p15_2_17, 80, Ctr128LE, spec::CTR128LE, u128, U16, 16
 belt_three!(belt_w1_p3_13_17, 80, U1, 3, 13, 17);
 buf_step!(buf_enc_step_b2_n5, 48, BufEncryptor, encrypt, true, U2, 2, 5);
 buf_step!(buf_dec_step_b2_n5, 48, BufDecryptor, decrypt, false, U2, 2, 5);
+buf_step_fixed!(buf_enc_long_b2_p1_n12, 48, BufEncryptor, encrypt, true, U2, 2, 1, 12);
+buf_step_fixed!(buf_dec_long_b2_p1_n12, 48, BufDecryptor, decrypt, false, U2, 2, 1, 12);
+buf_step_fixed!(buf_dec_long_b1_p0_n9, 48, BufDecryptor, decrypt, false, U1, 1, 0, 9);
 buf_fresh!(buf_enc_fresh_b2_l5, 48, BufEncryptor, encrypt, true, U2, 2, 5);
 buf_fresh!(buf_dec_fresh_b2_l5, 48, BufDecryptor, decrypt, false, U2, 2, 5);
 prefix_case!(prefix_cfb_enc_b2_w2_l7, 48, cfb_mode, Encryptor, enc, U2, 2, U2, 7);
@@ -342,6 +406,9 @@ buf_step!(t_buf_enc_step_b3_n7, 48, BufEncryptor, encrypt, true, U3, 3, 7);
 buf_step!(t_buf_dec_step_b3_n7, 48, BufDecryptor, decrypt, false, U3, 3, 7);
 buf_step!(t_buf_enc_step_b4_n9, 48, BufEncryptor, encrypt, true, U4, 4, 9);
 buf_step!(t_buf_dec_step_b4_n9, 48, BufDecryptor, decrypt, false, U4, 4, 9);
+buf_step_fixed!(t_buf_enc_long_b4_p3_n38, 64, BufEncryptor, encrypt, true, U4, 4, 3, 38);
+buf_step_fixed!(t_buf_dec_long_b4_p1_n38, 64, BufDecryptor, decrypt, false, U4, 4, 1, 38);
+buf_step_fixed!(t_buf_dec_long_b2_p0_n19, 48, BufDecryptor, decrypt, false, U2, 2, 0, 19);
 buf_step!(t_buf_enc_step_b1_n3, 48, BufEncryptor, encrypt, true, U1, 1, 3);
 buf_fresh!(t_buf_enc_fresh_b3_l7, 48, BufEncryptor, encrypt, true, U3, 3, 7);
 buf_fresh!(t_buf_dec_fresh_b3_l7, 48, BufDecryptor, decrypt, false, U3, 3, 7);
